@@ -323,6 +323,52 @@ def run_histories(tier, seed, R_):
         FRB.PIXEL_CACHE.pop(cache_id, None)
 
 
+def run_replaced_selections(tier, seed, R_, verbose=False):
+    """a selection is replaced by a new, different one (the old object is dropped by its only holder) and requested under the same cache id"""
+    import gc
+    from glue.core import fixed_resolution_buffer as FRB
+    from glue.core.subset import RangeSubsetState
+    dc, R, src = build()
+    S = src['S_off'][0] if 'S_off' in src else [v[0] for k, v in src.items() if v[1] is not None][1]
+    att = S.id['v']
+    vals = np.sort(np.unique(np.asarray(S['v'], dtype=float)))
+    cuts = [vals[len(vals) // 4], vals[len(vals) // 2], vals[3 * len(vals) // 4]]
+    bounds = [(-0.5, n - 0.5, n) for n in R.shape]
+    cache_id = 'verif-replaced-selection'
+    bad = 0
+    for attempt in range(40 if tier == 'quick' else 400):
+        lo = attempt % 3
+        s1 = RangeSubsetState(vals[0], cuts[lo], att)
+        call(S, bounds, R, 'mask', s1, cache_id)
+        old_id = id(s1)
+        del s1
+        gc.collect()
+        # the new selection is whichever of the next few allocated states lands where the dropped one was (the allocator decides; a viewer has no say in it)
+        pool = []
+        for _ in range(64):
+            pool.append(RangeSubsetState(cuts[lo], vals[-1], att))
+            if id(pool[-1]) == old_id:
+                break
+        s2 = pool[-1]
+        cached = call(S, bounds, R, 'mask', s2, cache_id)
+        fresh = call(S, bounds, R, 'mask', s2, None)
+        if R_ is not None:
+            R_.count(('replaced', attempt), 'cached-vs-uncached-replaced-selection')
+        ok = fresh[0] == cached[0] and (fresh[1] == cached[1] if fresh[0] == 'raised' else same(cached[1], fresh[1]))
+        if verbose:
+            print('attempt', attempt, 'agree' if ok else 'DIFFER')
+        if not ok:
+            bad += 1
+            if R_ is not None:
+                R_.fail("frb|cache|replaced-selection",
+                        "mask of a new selection requested under the cache id under which the mask of a dropped, different selection had been requested (attempt %d): differs from the uncached mask" % attempt,
+                        "from bounded.c16_frb import run_replaced_selections\nsys.exit(run_replaced_selections(%r, %r, None, True))\n" % (tier, seed))
+            break
+    FRB.ARRAY_CACHE.pop(cache_id, None)
+    FRB.PIXEL_CACHE.pop(cache_id, None)
+    return 1 if bad else 0
+
+
 def replay_history(log):
     from glue.core import fixed_resolution_buffer as FRB
     dc, R, src = build()
@@ -393,9 +439,10 @@ def run(tier, seed, R):
               "world-to-world linked affine frames, unlinked, half-linked). Definition: random bounds triples drawn from 12 options per axis (scalars inside/outside/fractional, ranges inside / partly / "
               "wholly outside / single step / reversed) x values and 3 selections vs nearest-pixel resampling through the known pixel map (samples within 1e-6 of a half pixel not compared). Cache: random "
               "request histories (3-9 requests, viewer-like: 75% of the requests change one thing - a scalar slice, the attribute/selection, the source, one bound, broadcast) under one cache id, every "
-              "request compared with the same request without cache id (value, shape or exception). Image layer planes for 5 sources x every slice. non-trivial = request with a non-empty result")
+              "request compared with the same request without cache id (value, shape or exception); 40 (thorough 400) rounds of a selection dropped and replaced by a new, different one under one cache id. Image layer planes for 5 sources x every slice. non-trivial = request with a non-empty result")
     R.exhaustive = False
     run_definition(tier, seed, R)
     run_histories(tier, seed, R)
+    run_replaced_selections(tier, seed, R)
     run_viewer(tier, seed, R)
     R.samples.append({"case": "S_off (3x4x3 cube offset inside R), bounds (7, (-2.3, 6.4, 7), (0.25, 4.8, 3)) then scalar moved to 2 under the same cache id: cached == uncached == resampled values"})
